@@ -125,6 +125,8 @@ def run_cvc5(smt2: str) -> tuple[str, float, str]:
 
 
 COVER_TIMEOUT_MS = 3000
+RETRY_FACTOR = 6
+RETRY_MAX = 6
 
 
 def solve_one(args: tuple[str, str, list[str], bool, str]) -> Result:
@@ -174,4 +176,23 @@ def solve_all(vcs: list[Any], both: bool = False, workers: int = 0) -> list[Resu
     if workers == 1 or len(jobs) == 1:
         return [solve_one(j) for j in jobs]
     with ProcessPoolExecutor(max_workers=workers) as ex:
-        return list(ex.map(solve_one, jobs, chunksize=1))
+        results = list(ex.map(solve_one, jobs, chunksize=1))
+    # A verdict must not depend on how busy the machine is: an obligation that ran into the *time limit* (not one the solver gave up
+    # on) is tried again on its own, with six times the budget, before it is called undischarged.  (At most a handful: a changed
+    # function whose obligations all time out stays undischarged after the first few.)
+    retried = 0
+    for k, (job, r) in enumerate(zip(jobs, results)):
+        if job[4] == "cover" or r.verdict != "unknown" or retried >= RETRY_MAX:
+            continue
+        if not any(w in (r.reason or "") for w in ("timeout", "canceled", "max. resource")):
+            continue
+        retried += 1
+        try:
+            v, dt, model, reason = run_z3(job[1], job[2], RETRY_FACTOR * Z3_TIMEOUT_MS)
+        except Exception:  # noqa: BLE001
+            continue
+        if v == "unsat":
+            results[k] = Result(r.name, "unsat", "z3", r.seconds + dt, {}, "retried alone after a timeout under load")
+        elif v == "sat":
+            results[k] = Result(r.name, "sat", "z3", r.seconds + dt, model, reason)
+    return results
